@@ -30,7 +30,8 @@ def showCells (l : List Nat) : String :=
 
 def parseFx (s : String) : Fixes :=
   match s.toList.map (· == '1') with
-  | [a, b] => ⟨a, b⟩
+  | [a, b, c] => ⟨a, b, c⟩
+  | [a, b] => ⟨a, b, Norm.current.foldRoom⟩
   | _ => Norm.current
 
 def showRes (r : Res) : String :=
@@ -69,7 +70,7 @@ def uniLine (id : String) (op : String) (m : List (String × String)) : String :
   let src := parseCells (get m "src")
   let dmax := nat m "dmax"
   match op with
-  | "fixes" => return s!"id={id} fx={if Norm.current.compCast then 1 else 0}{if Norm.current.rangeChk then 1 else 0}"
+  | "fixes" => return s!"id={id} fx={if Norm.current.compCast then 1 else 0}{if Norm.current.rangeChk then 1 else 0}{if Norm.current.foldRoom then 1 else 0}"
   | "norm" => return s!"id={id} {showRes (wcsnormS fx (nat m "mode") dmax src)}"
   | "reorder" => return s!"id={id} {showRes { reorderS fx dmax src with len := 0 }}"
   | "compose" =>
